@@ -14,7 +14,6 @@ Record st := mkst {
   regs : N -> Z;          (* every integer / bool field of the Go CPU and Bus structs *)
   mem : Z -> Z;           (* flat memory; only [0, 2^24) is ever accessed *)
   trace : list ev;        (* newest first *)
-  mapped : Z -> bool;     (* segment table: is 16-byte block i attached? *)
   onpc : Z -> bool;       (* OnPC callback registered for this 24-bit address? *)
   onwdm : bool            (* OnWDM callback registered? *)
 }.
@@ -28,19 +27,20 @@ Definition bind {A B} (m : res A) (k : A -> st -> res B) : res B :=
 
 Definition get (f : N) (s : st) : Z := regs s f.
 Definition set (f : N) (v : Z) (s : st) : st :=
-  mkst (fun g => if N.eqb g f then v else regs s g) (mem s) (trace s) (mapped s) (onpc s) (onwdm s).
+  mkst (fun g => if N.eqb g f then v else regs s g) (mem s) (trace s) (onpc s) (onwdm s).
 
 Definition log (e : ev) (s : st) : st :=
-  mkst (regs s) (mem s) (e :: trace s) (mapped s) (onpc s) (onwdm s).
+  mkst (regs s) (mem s) (e :: trace s) (onpc s) (onwdm s).
 Definition upd (a v : Z) (s : st) : st :=
-  mkst (regs s) (fun b => if Z.eqb b a then v else mem s b) (trace s) (mapped s) (onpc s) (onwdm s).
+  mkst (regs s) (fun b => if Z.eqb b a then v else mem s b) (trace s) (onpc s) (onwdm s).
 
 Definition seg_ok (i : Z) : bool := (0 <=? i) && (i <? 1048576).
 Definition addr_ok (a : Z) : bool := (0 <=? a) && (a <? 16777216).
 
 (* primary bus: b.segment[i] ; index out of range panics *)
 Definition seg_get (i : Z) (s : st) : res Z := if seg_ok i then Ok i s else Panic.
-Definition seg_nil (h : Z) (s : st) : bool := negb (mapped s h).
+(* the whole address space is mapped (the assumption of C02 / C08): no segment is nil *)
+Definition seg_nil (h : Z) (s : st) : bool := false.
 (* Memory.Read / Memory.Write of the flat RAM behind every segment *)
 Definition mem_read (h a : Z) (s : st) : res Z :=
   if addr_ok a then let v := mem s a mod 256 in Ok v (log (EvR a v) s) else Panic.
